@@ -6,6 +6,7 @@ package main
 import (
 	"fmt"
 	"reflect"
+	"strconv"
 	"strings"
 	"sync"
 	"time"
@@ -74,7 +75,7 @@ var defaultNs = map[string][]int{"Macd": {3, 5, 2}, "Rsi": {4}, "Bop": {}, "BuyA
 	"GoldenCross": {2, 5}, "Kdj": {3, 2, 2}, "Smma": {2, 4}, "Alligator": {4, 3, 2}}
 var defaultFs = map[string][]float64{"Rsi": {30, 70}}
 
-func runReport(name, ns, fs, streams string) (result string) {
+func runReport(name, ns, fs, streams string, zeroDate int) (result string) {
 	defer func() {
 		if r := recover(); r != nil {
 			result = fmt.Sprintf("panic %v", r)
@@ -90,7 +91,11 @@ func runReport(name, ns, fs, streams string) (result string) {
 	if s == nil {
 		return errS
 	}
-	prod := newProducer(makeSnapshots(env), inputCap)
+	snaps := makeSnapshots(env)
+	if zeroDate >= 0 && zeroDate < len(snaps) {
+		snaps[zeroDate].Date = time.Time{} // a snapshot whose date was never set
+	}
+	prod := newProducer(snaps, inputCap)
 	rep := s.Report(prod.c)
 	type colres struct {
 		name, typ string
@@ -103,6 +108,10 @@ func runReport(name, ns, fs, streams string) (result string) {
 	go func() {
 		defer wg.Done()
 		for d := range rep.Date {
+			if d.IsZero() {
+				dates = append(dates, "-1")
+				continue
+			}
 			dates = append(dates, fmt.Sprint(int(d.Sub(day0).Hours()/24)))
 		}
 	}()
@@ -171,6 +180,13 @@ func init() {
 		if len(a) != 4 {
 			return "ERR bad-command"
 		}
-		return runReport(a[0], a[1], a[2], a[3])
+		return runReport(a[0], a[1], a[2], a[3], -1)
+	}
+	extraHandlers["REPORTZ"] = func(a []string) string {
+		if len(a) != 5 {
+			return "ERR bad-command"
+		}
+		z, _ := strconv.Atoi(a[4])
+		return runReport(a[0], a[1], a[2], a[3], z)
 	}
 }
